@@ -10,12 +10,15 @@ import (
 
 func init() {
 	register(&Rule{
-		ID: "FG", Props: []string{"C11"}, Min: 3,
+		ID: "FG", Props: []string{"C11"}, Min: 4,
 		Doc: `obipcr --fragmented cuts long templates into overlapping fragments amplified separately. In pkg/obitools/obipcr.CLIPCR (1) the overlap handed to obiiter.IFragments is, by linear
 arithmetic over the option getters, at least max length + length of both primers (+ twice the flank length on the path where flanks are requested): an amplicon lying across the end of a fragment
 is then entirely inside the next one — with max + max(lf,lr) + min(lf,lr)/2 an insert of the maximal length straddling a boundary was lost, and flanks were clipped at the fragment edge; (2) the
 fragmenting branch refuses the circular option (a branch testing it ends the program): OptionCircular would apply to each fragment and pair a site at its end with a site at its start (a 40 nt
-chimera from sites 39480 bp apart); (3) something removes the amplicons reported twice because they lie entirely inside an overlap: the worker's output is not returned as it is.`,
+chimera from sites 39480 bp apart); (3) something removes the amplicons reported twice because they lie entirely inside an overlap: the worker's output is not returned as it is; (4) the
+fragmentation progresses: the loop of IFragments advances by length − overlap, which is ≥ 1 either because IFragments ends the program otherwise before building its worker (a guard whose negation
+entails it) or because the call site proves fragment length ≥ overlap + 1 on every path (linear arithmetic, max() forked) — with -L 5 and two 250 nt primers the overlap (505) exceeded the fragment
+length (500): the loop walked backwards and Subsequence was called with a negative position.`,
 		Run: runFG,
 	})
 }
@@ -172,4 +175,111 @@ func runFG(c *Ctx, s *Sink) {
 	} else {
 		s.Pass(nil, key, fragIf.Pos(), "the worker's output goes through a further stage before being returned")
 	}
+	// (4) progress
+	key = base + ":fragments-progress"
+	siteOK, siteN := true, 0
+	linWalk([]linPath{{env: &linEnv{info: info, vars: map[types.Object]linForm{}, defs: map[types.Object][]ast.Expr{}, atoms: map[string]bool{}, lens: map[string]bool{}, elems: map[string]linForm{}, decl: decl}}}, fragIf.Body.List, func(pth linPath, st ast.Stmt) {
+		found := false
+		ast.Inspect(st, func(m ast.Node) bool {
+			if m == ast.Node(frag) {
+				found = true
+			}
+			return true
+		})
+		if !found {
+			return
+		}
+		siteN++
+		pth.env.cur = pth.sys
+		ln, ok1 := pth.env.form(frag.Args[1], 0)
+		ov, ok2 := pth.env.form(frag.Args[2], 0)
+		if !ok1 || !ok2 || !pth.known().entails(linLE(ov.add(lfConst(1), 1), ln)) {
+			siteOK = false
+		}
+	})
+	siteOK = siteOK && siteN > 0
+	guardOK := fgGuard(c)
+	switch {
+	case guardOK && siteOK:
+		s.Pass(nil, key, frag.Pos(), "fragment length >= overlap + 1 at the call, and IFragments refuses a step below 1")
+	case guardOK:
+		s.Pass(nil, key, frag.Pos(), "IFragments ends the program when length - overlap < 1")
+	case siteOK:
+		s.Pass(nil, key, frag.Pos(), "fragment length >= overlap + 1 on every path to the call")
+	default:
+		s.Fail(nil, key, frag.Pos(), "nothing bounds the overlap below the fragment length: with -L 5 and two 250 nt primers the overlap is 505 for fragments of 500, the loop of IFragments advances by -5 and Subsequence is called with a negative position (panic), or by 0 and never ends")
+	}
+}
+
+// fgGuard: in obiiter.IFragments, before the first statement holding a function literal, the paths that do not end in
+// Panic*/Fatal* entail length - overlap >= 1 (second and third parameters).
+func fgGuard(c *Ctx) bool {
+	fd, p := c.FindFunc("pkg/obiiter", "IFragments")
+	if fd == nil {
+		return false
+	}
+	info := p.TypesInfo
+	ps := flattenParams(fd.Type.Params)
+	if len(ps) < 3 {
+		return false
+	}
+	env := &linEnv{info: info, vars: map[types.Object]linForm{}, defs: map[types.Object][]ast.Expr{}, atoms: map[string]bool{}, lens: map[string]bool{}, elems: map[string]linForm{}}
+	paths := []linPath{{env: env}}
+	terminates := func(b *ast.BlockStmt) bool {
+		if len(b.List) == 0 {
+			return false
+		}
+		es, ok := b.List[len(b.List)-1].(*ast.ExprStmt)
+		if !ok {
+			return false
+		}
+		call, ok := es.X.(*ast.CallExpr)
+		if !ok {
+			return false
+		}
+		if id, ok := call.Fun.(*ast.Ident); ok && id.Name == "panic" {
+			return true
+		}
+		f := callee(info, call)
+		return f != nil && (strings.HasPrefix(f.Name(), "Fatal") || strings.HasPrefix(f.Name(), "Panic"))
+	}
+	for _, st := range fd.Body.List {
+		hasLit := false
+		ast.Inspect(st, func(n ast.Node) bool {
+			if _, ok := n.(*ast.FuncLit); ok {
+				hasLit = true
+			}
+			return true
+		})
+		if hasLit {
+			break
+		}
+		if ifs, ok := st.(*ast.IfStmt); ok && ifs.Else == nil && ifs.Init == nil && terminates(ifs.Body) {
+			var out []linPath
+			for _, pth := range paths {
+				pth.env.cur = pth.sys
+				for _, cs := range pth.env.cond(ifs.Cond, true) {
+					np := linPath{env: pth.env.clone(), sys: append(append(linSys{}, pth.sys...), cs...)}
+					if !np.known().infeasible() {
+						out = append(out, np)
+					}
+				}
+			}
+			paths = out
+			continue
+		}
+		paths = linWalk(paths, []ast.Stmt{st}, func(linPath, ast.Stmt) {})
+	}
+	if len(paths) == 0 {
+		return false
+	}
+	for _, pth := range paths {
+		pth.env.cur = pth.sys
+		ln, ok1 := pth.env.form(ps[1], 0)
+		ov, ok2 := pth.env.form(ps[2], 0)
+		if !ok1 || !ok2 || !pth.known().entails(linLE(ov.add(lfConst(1), 1), ln)) {
+			return false
+		}
+	}
+	return true
 }
